@@ -1,9 +1,8 @@
 """Self-test mutant catalogue (DESIGN 'Tier plan and self-test mutants').  Each mutant is a
 realistic change that compiles and passes `make check`; 'expect' is a regex over the name of
 the obligation that must fail."""
-MUTANTS = []
-def mut(pid, name, edits, expect, only=None, **kw):
-    MUTANTS.append(dict(pid=pid, name=name, edits=edits, expect=expect, only=only, **kw))
+import registry  # loads run/props/*.py, which may register mutants too
+from api import mut, MUTANTS
 
 # C16 - bitopstest/constexprtest catch every single-constant change I tried (0x11111111, 0xcccccccc and all-ones between
 # them touch every mask bit), so these are machinery tests only: skip_tests=True means "known to be caught by make check too".
